@@ -11,16 +11,21 @@ from coba.primitives import Source, Sink, Filter, Environment, Interaction
 class ObjectsToZipMember(Sink[Iterable[Sequence[object]]]):
     def __init__(self, zip:str):
         self._zip = zip
-        self._start = 0
+
+    def _next_member(self) -> int:
+        start = 0
         if Path(self._zip).exists():
             for n in ZipFile(self._zip).namelist():
                 try:
-                    self._start = max(self._start,int(n)+1)
+                    start = max(start,int(n)+1)
                 except ValueError: #pragma: no cover
                     pass
+        return start
 
     def write(self, envs: Iterable[Sequence[object]]) -> None:
-        for i,env in enumerate(envs,self._start):
+        # The first free member number is determined when we write (not when we
+        # are created) so that members already in the file are never written over.
+        for i,env in enumerate(envs,self._next_member()):
             with CobaContext.logger.time(f"Writing environment {i}..."):
                 # Dump before opening the file so we
                 # can keep it open for as short a time
